@@ -652,11 +652,24 @@ class SVGPath(SVGShape, SVGCommandSeq):
     def arcs_to_cubics(self, inplace=False):
         """Replace all arcs with similar cubics"""
 
+        prev_was_arc = False
+
         def arc_to_cubic_callback(subpath_start, curr_pos, cmd, args, *_):
+            nonlocal prev_was_arc
             del subpath_start
             if cmd not in {"a", "A"}:
+                if prev_was_arc and cmd in {"s", "S"}:
+                    # S after an arc has its first control point on the current
+                    # point; once the arc is a cubic S would start reflecting that
+                    # cubic's control point, so spell the control point out.
+                    prev_was_arc = False
+                    if cmd == "s":
+                        cmd, args = _relative_to_absolute(curr_pos, cmd, args)
+                    return (("C", (curr_pos.x, curr_pos.y) + tuple(args)),)
+                prev_was_arc = False
                 # no work to do
                 return ((cmd, args),)
+            prev_was_arc = True
 
             (rx, ry, x_rotation, large, sweep, end_x, end_y) = args
 
